@@ -24,6 +24,23 @@ def new(pid, name, path, old, newtxt, expect):
     print("written", os.path.join(d, name + ".patch"))
 
 
+def sub(pid, name, path, pattern, repl, expect, occurrence=1):
+    """regex variant: replace the k-th match of `pattern` (multiline) by `repl`"""
+    src = open(os.path.join(REPO, path)).read()
+    ms = list(re.finditer(pattern, src, re.M))
+    if len(ms) < occurrence:
+        sys.exit("pattern matches %d times in %s" % (len(ms), path))
+    m = ms[occurrence - 1]
+    mod = src[:m.start()] + m.expand(repl) + src[m.end():]
+    diff = "".join(difflib.unified_diff(src.splitlines(True), mod.splitlines(True), "a/" + path, "b/" + path, n=3))
+    d = os.path.join(V, "witness", pid)
+    os.makedirs(d, exist_ok=True)
+    with open(os.path.join(d, name + ".patch"), "w") as f:
+        f.write("# expect: %s\n" % expect)
+        f.write(diff)
+    print("written", os.path.join(d, name + ".patch"))
+
+
 def run_one(pid, patch):
     expect = open(patch).readline().strip()
     assert expect.startswith("# expect:")
@@ -73,5 +90,10 @@ if __name__ == "__main__":
         a = sys.argv[2:]
         i = a.index("--expect")
         new(a[0], a[1], a[2], a[3], a[4], a[i + 1])
+    elif sys.argv[1] == "sub":
+        a = sys.argv[2:]
+        i = a.index("--expect")
+        occ = int(a[a.index("--occ") + 1]) if "--occ" in a else 1
+        sub(a[0], a[1], a[2], a[3], a[4], a[i + 1], occ)
     elif sys.argv[1] == "run":
         sys.exit(run(sys.argv[2:]))
